@@ -9,6 +9,8 @@ import (
 	"errors"
 	"fmt"
 	"io"
+	"mime"
+	"mime/multipart"
 	"net/http"
 	"sort"
 	"strings"
@@ -39,6 +41,34 @@ func (t *c11rt) RoundTrip(r *http.Request) (*http.Response, error) {
 	body, _ := io.ReadAll(r.Body)
 	var reqs []struct {
 		Query string `json:"query"`
+	}
+	if mt, params, _ := mime.ParseMediaType(r.Header.Get("Content-Type")); mt == "multipart/form-data" {
+		// a request with an upload travels alone, as a multipart form, and is answered with one object
+		form, err := multipart.NewReader(bytes.NewReader(body), params["boundary"]).ReadForm(1 << 20)
+		if err != nil || len(form.Value["operations"]) != 1 {
+			return nil, fmt.Errorf("harness: unexpected multipart body %s", body)
+		}
+		var one struct {
+			Query string `json:"query"`
+		}
+		if err := json.Unmarshal([]byte(form.Value["operations"][0]), &one); err != nil {
+			return nil, fmt.Errorf("harness: unexpected operations field %s", form.Value["operations"][0])
+		}
+		got := ""
+		for _, fhs := range form.File {
+			for _, fh := range fhs {
+				f, _ := fh.Open()
+				b, _ := io.ReadAll(f)
+				f.Close()
+				got += string(b)
+			}
+		}
+		form.RemoveAll()
+		vrt.Touch("transport")
+		t.calls = append(t.calls, []string{one.Query})
+		t.serial++
+		b, _ := json.Marshal(map[string]interface{}{"data": map[string]interface{}{"echo": one.Query, "serial": t.serial, "file": got}})
+		return &http.Response{StatusCode: 200, Body: io.NopCloser(bytes.NewReader(b)), Header: http.Header{}}, nil
 	}
 	if err := json.Unmarshal(body, &reqs); err != nil {
 		return nil, fmt.Errorf("harness: unexpected body %s", body)
@@ -86,6 +116,19 @@ func (t *c11rt) RoundTrip(r *http.Request) (*http.Response, error) {
 			}
 			b, _ := json.Marshal(out)
 			return &http.Response{StatusCode: 200, Body: io.NopCloser(bytes.NewReader(b)), Header: http.Header{}}, nil
+		case "trailer", "breaks-off-after-array":
+			// a well-formed answer of the right length - and then something else: more text behind the array / the transfer breaks off with an error
+			out := make([]map[string]interface{}, 0, len(reqs))
+			for _, q := range reqs {
+				t.serial++
+				out = append(out, map[string]interface{}{"data": map[string]interface{}{"echo": q.Query, "serial": t.serial}})
+			}
+			b, _ := json.Marshal(out)
+			var rd io.Reader = bytes.NewReader(append(b, []byte("\n<html>502 Bad Gateway</html>")...))
+			if t.failWith == "breaks-off-after-array" {
+				rd = io.MultiReader(bytes.NewReader(b), errReader{})
+			}
+			return &http.Response{StatusCode: 200, Body: io.NopCloser(rd), Header: http.Header{}}, nil
 		case "status":
 			return &http.Response{StatusCode: 500, Body: io.NopCloser(strings.NewReader("boom")), Header: http.Header{}}, nil
 		case "status-validbody":
@@ -109,6 +152,24 @@ func (t *c11rt) RoundTrip(r *http.Request) (*http.Response, error) {
 	}
 	b, _ := json.Marshal(out)
 	return &http.Response{StatusCode: 200, Body: io.NopCloser(bytes.NewReader(b)), Header: http.Header{}}, nil
+}
+
+type errReader struct{}
+
+func (errReader) Read([]byte) (int, error) {
+	return 0, errors.New("read tcp: connection reset by peer")
+}
+
+// c11File is an uploaded file held in memory
+type c11File struct{ *bytes.Reader }
+
+func (c11File) Close() error { return nil }
+
+// c11UploadAt reads the position out of the pattern "upload@k" (-1: no upload)
+func c11UploadAt(pattern string) int {
+	k := -1
+	fmt.Sscanf(pattern, "upload@%d", &k)
+	return k
 }
 
 // c11ID names request i: "distinct" q0..q(n-1); "equal" all q0; "period" q(i mod m) (the chunks are byte-equal)
@@ -143,6 +204,9 @@ func c11Harness(n, m int, failWith string, failIdx int, pattern ...string) explo
 			in := make([]*requests.Request, n)
 			for i := range in {
 				in[i] = &requests.Request{Query: c11ID(pat, i, m)}
+				if i == c11UploadAt(pat) {
+					in[i].Variables = map[string]interface{}{"f": &requests.Upload{File: c11File{bytes.NewReader([]byte("bytes of " + c11ID(pat, i, m)))}, FileName: "f.txt"}}
+				}
 			}
 			res, err = q.Query(in)
 			returned = true
@@ -217,6 +281,9 @@ func c11Verdict(n, m int, rt *c11rt, res []map[string]interface{}, err error, re
 		if r == nil || r["echo"] != c11ID(pat, i, m) {
 			return "result at position i does not answer request i"
 		}
+		if i == c11UploadAt(pat) && r["file"] != "bytes of "+c11ID(pat, i, m) {
+			return "the request with the upload was not answered with its file"
+		}
 		if serials[r["serial"]] {
 			return "result at position i does not answer request i (two results carry the answer to one executed request)"
 		}
@@ -228,7 +295,7 @@ func c11Verdict(n, m int, rt *c11rt, res []map[string]interface{}, err error, re
 func init() {
 	Specs["C11"] = &Spec{
 		ID: "C11",
-		Rule: "scenario = (N requests, max batch size m, request identities {all distinct, all equal, repeating with period m (byte-equal chunks)}; the service numbers every request it executes; failure kind in {none, none with answers that spell out empty errors lists, transport error, transport error wrapping EOF (connection broke after the call arrived), transport error wrapping context.Canceled, status 500, 502 with a well-formed body, non-JSON body, GraphQL errors in the element, empty errors list with null data, a well-formed answer one element short}, failing chunk); all completion orders of the concurrent chunk requests of the real MultiOpQueryer.Query are enumerated " +
+		Rule: "scenario = (N requests, max batch size m, request identities {all distinct, all equal, repeating with period m (byte-equal chunks)}; the service numbers every request it executes; failure kind in {none, none with answers that spell out empty errors lists, transport error, transport error wrapping EOF (connection broke after the call arrived), transport error wrapping context.Canceled, status 500, 502 with a well-formed body, non-JSON body, GraphQL errors in the element, empty errors list with null data, a well-formed answer one element short, a well-formed answer followed by more text, a well-formed answer after which the transfer breaks off}; one request may carry an upload (every position, N 2..5, m 2..3), failing chunk); all completion orders of the concurrent chunk requests of the real MultiOpQueryer.Query are enumerated " +
 			"(all interleavings, state-cached, unbounded); outcome = verdict plus arrival order of the HTTP calls; non-trivial = >1 execution",
 		Assumptions: []string{
 			"the in-memory RoundTripper stands for the service; one scheduling point while the call is in flight",
@@ -270,9 +337,16 @@ func init() {
 								Opt: explore.Options{Bound: -1, Cache: true, StartBranch: true}, H: c11Harness(n, m, "", 0, pat)})
 						}
 					}
+					if n >= 2 && n <= 5 && m >= 2 && m <= 3 {
+						// one request carries an upload (it travels alone, ahead of the batch it was cut out of), at every position
+						for k := 0; k < n; k++ {
+							out = append(out, Scenario{Name: fmt.Sprintf("N=%d m=%d no-fault, upload at %d", n, m, k), Atoms: []string{"nofault", "upload"},
+								Opt: explore.Options{Bound: -1, Cache: true, StartBranch: true}, H: c11Harness(n, m, "", 0, fmt.Sprintf("upload@%d", k))})
+						}
+					}
 					kinds := []string{"transport", "transport-eof", "transport-canceled"}
 					if n <= 4 || tier == "thorough" {
-						kinds = []string{"transport", "transport-eof", "transport-canceled", "status", "badjson", "status-validbody", "graphql-errors", "errors-empty-datanull", "short"}
+						kinds = []string{"transport", "transport-eof", "transport-canceled", "status", "badjson", "status-validbody", "graphql-errors", "errors-empty-datanull", "short", "trailer", "breaks-off-after-array"}
 					}
 					for _, k := range kinds {
 						for c := 0; c < chunks; c++ {
